@@ -1600,19 +1600,21 @@ impl Engine for HttpEngine {
     })
   }
   fn rule(&self) -> String {
-    "seeded request histories (/init, valid and invalid /add NDJSON, /bulk, /delete, /commit, /refresh, /compact, /search, /stats, /inspect, unknown paths/methods, wrong content types) handed to the real axum Router as a tower Service on a current-thread tokio runtime with the clock paused; transport faults: body split at arbitrary byte boundaries, client stall (simulated clock runs to the 30 s TimeoutLayer), bodies over the limit with and without Content-Length; oracle: queue model + response-shape/status rules; distinct = distinct <request kind:status> 3-grams".into()
+    "seeded request histories (/init, valid and invalid /add NDJSON, /bulk, /delete, /commit, /refresh, /compact, /search, /stats, /inspect, unknown paths/methods, wrong content types, searches with extreme numeric parameters) handed to the real axum Router as a tower Service on a current-thread tokio runtime with the clock paused; transport faults: body split at arbitrary byte boundaries, client stall (simulated clock runs to the 30 s TimeoutLayer), connection reset mid-body, bodies over the limit with and without Content-Length; a third of the cases end in a block of 2-6 concurrent requests driven by a seeded executor (request futures polled only after their waker fired; blocking tasks parked at spawn, at outermost core lock boundaries and on a contended writer lock, one thread runs at a time; a client may go away mid-request); a fifth of the sequential cases inject storage faults under the service (one primitive of the index directory fails with an I/O error or panics while a request is served); the engine runs in a child process so that a request that kills the process is reported; oracle: queue model (set of allowed states after un-acknowledged outcomes; linearizability search for concurrent blocks) + response-shape/status rules; distinct = distinct <request kind:status> 3-grams plus distinct concurrent schedules".into()
   }
   fn assumptions(&self) -> Vec<String> {
     vec![
-      "requests are issued one at a time (no concurrent clients); the router is driven as a tower Service, so hyper's connection handling is not exercised".into(),
-      "the index lives on a real tmpfs directory; no crash or disk fault is part of these properties".into(),
+      "the router is driven as a tower Service, so hyper's connection handling is not exercised; a dropped request future stands for a client that went away".into(),
+      "the index lives on a real tmpfs directory; storage faults are single failing primitives (error before effect, or panic), no crash is part of these properties".into(),
       "invalid documents are invalid in ways rejected when queued (malformed JSON, non-object, missing/blank/non-string id, wrong value type, null in a non-nullable field) - not unknown fields".into(),
+      "a write or commit that was not acknowledged (storage fault, client gone) may or may not have taken effect: for a write any prefix of its own operations, for a commit all or nothing; acknowledged operations must never be lost".into(),
+      "simulated time only moves when no request future is runnable and no blocking task is alive (tokio's paused clock); work done on threads tokio does not know of would let it run early".into(),
     ]
   }
   fn real_vs_stub(&self) -> Value {
     json!({
-      "real": "searchlite-http router, handlers, middleware stack (timeout, concurrency limit, body limit, 413 mapping), axum extractors, tokio runtime + blocking pool, searchlite-core on a tmpfs directory",
-      "simulated": "TCP/hyper connection handling (the router is called as a Service), wall clock (tokio paused clock), the clients and their transport behaviour",
+      "real": "searchlite-http router, handlers, middleware stack (timeout, concurrency limit, body limit, 413 mapping), axum extractors, tokio runtime + blocking pool (real pool threads, released one at a time), searchlite-core on a tmpfs directory through FsStorage",
+      "simulated": "TCP/hyper connection handling (the router is called as a Service), wall clock (tokio paused clock), the clients and their transport behaviour, the order in which concurrent requests and blocking tasks make progress (seeded executor), storage failures (pass-through VFS with one failing primitive)",
     })
   }
   fn budget(&self, thorough: bool) -> (u64, f64) {
@@ -1624,9 +1626,40 @@ impl Engine for HttpEngine {
   }
   fn probes(&self) -> Vec<&'static str> {
     if self.c24 {
-      vec!["fault.chunk_split", "fault.stall", "fault.oversize_declared", "fault.oversize_streamed", "fault.connection_reset_mid_body", "probe.stall_hit_simulated_timeout", "probe.oversize_checked", "probe.broken_body_checked", "checks.healthz"]
+      vec![
+        "fault.chunk_split",
+        "fault.stall",
+        "fault.oversize_declared",
+        "fault.oversize_streamed",
+        "fault.connection_reset_mid_body",
+        "fault.storage_eio",
+        "fault.storage_panic",
+        "fault.client_gone",
+        "probe.stall_hit_simulated_timeout",
+        "probe.oversize_checked",
+        "probe.broken_body_checked",
+        "probe.extreme_search_parameters",
+        "probe.answered_despite_storage_fault",
+        "probe.concurrent_blocks",
+        "probe.blocking_tasks_overlapped",
+        "checks.healthz",
+      ]
     } else {
-      vec!["fault.chunk_split", "checks.contents_after_commit", "op.add", "op.bulk", "op.delete", "op.commit"]
+      vec![
+        "fault.chunk_split",
+        "fault.storage_eio",
+        "fault.client_gone",
+        "checks.contents_after_commit",
+        "checks.concurrent_history_linearizable",
+        "probe.concurrent_blocks",
+        "probe.blocking_tasks_overlapped",
+        "probe.blocking_task_switches",
+        "probe.alternatives_resolved_by_observation",
+        "op.add",
+        "op.bulk",
+        "op.delete",
+        "op.commit",
+      ]
     }
   }
 }
@@ -1658,10 +1691,36 @@ fn supervise() -> i32 {
     } else {
       c.env_remove("VERIF_E3_CRUMBS");
     }
-    match c.status() {
-      Ok(st) => st.code().filter(|c| *c < 128),
+    if !quiet {
+      c.stderr(std::process::Stdio::piped());
+    }
+    let mut child = match c.spawn() {
+      Ok(ch) => ch,
       Err(e) => {
         eprintln!("harness error: cannot start the engine process: {}", e);
+        return Some(2);
+      }
+    };
+    // the core reports a failed log sync in a writer's Drop on stderr; under
+    // injected storage faults that is expected noise
+    let fwd = child.stderr.take().map(|err| {
+      std::thread::spawn(move || {
+        use std::io::BufRead;
+        for line in std::io::BufReader::new(err).lines().map_while(Result::ok) {
+          if !line.starts_with("IndexWriter: failed to sync WAL on drop") {
+            eprintln!("{}", line);
+          }
+        }
+      })
+    });
+    let st = child.wait();
+    if let Some(h) = fwd {
+      let _ = h.join();
+    }
+    match st {
+      Ok(st) => st.code().filter(|c| *c < 128),
+      Err(e) => {
+        eprintln!("harness error: cannot wait for the engine process: {}", e);
         Some(2)
       }
     }
